@@ -64,6 +64,14 @@ class ArmDomain(FactDomain):
             marks = {m for m in marks if m[0] != 'pose'}
             if not (self.fi.name == 'FK' and self.fi.cls is self.ck.arm):
                 marks.add(('pose', key, stmt.lineno, org))
+        if f == '_end_effector_home' and value is not None and isinstance(target, ast.Attribute):
+            # a base-change write (home pose re-expressed for a new base): the restore backup must follow it
+            names = {n.id for n in ast.walk(value) if isinstance(n, ast.Name)}
+            if names & {p for p in self.fi.params if 'base' in p}:
+                marks.add(('orig', key, stmt.lineno, org))
+        if f == '_original_end_effector_home' and value is not None:
+            if '_end_effector_home' in src(value) and '_original' not in src(value):
+                marks = {m for m in marks if m[0] != 'orig'}
         if f == BODY and value is not None:
             txt = src(value)
             if 'Adjoint' in txt and '_end_effector_home' in txt and 'inv()' in txt and 'screw_list' in txt:
